@@ -33,6 +33,7 @@ type PropertyMeta struct {
 	Level       string   `json:"level"` // evidence level when not "proof" (e.g. "other": decisive clause only bounded)
 	DeadReturns []string `json:"dead_returns"` // cover queries expected to be unsat (dead code by contract)
 	ExtraFuncs  []string `json:"extra_functions"`
+	ExtraSafety bool     `json:"extra_with_safety"` // the safety obligations of the extra functions are this property's too
 }
 
 type oblReport struct {
@@ -325,7 +326,7 @@ func runCheck(repo, root, prop, tier string, seed int) *CheckResult {
 						onlySafety = false
 					}
 				}
-				take = !onlySafety
+				take = !onlySafety || meta.ExtraSafety
 			}
 			if !take && isSafetyProp && hasProp(e.safetyProps, prop) {
 				take = true
